@@ -1196,3 +1196,42 @@ V('hashlookupjoin',
                                 key='a'))
 V('hashcomplement',
   lambda e, w: e.hashcomplement(e.wrap(w.s[0]), e.wrap(w.s[1])))
+
+
+# -- sort-backed operators told that their inputs are presorted: no sort, so
+# they stream (merge / group the inputs as they come)
+R('presorted-setops', 2,
+  [lambda e, w: e.complement(w.s[0], w.s[1], presorted=True),
+   lambda e, w: e.intersection(w.s[0], w.s[1], presorted=True),
+   lambda e, w: e.diff(w.s[0], w.s[1], presorted=True)[0],
+   lambda e, w: e.diff(w.s[0], w.s[1], presorted=True)[1],
+   lambda e, w: e.complement(w.s[0], w.s[1], presorted=True, strict=True)],
+  'transform.setops', stream=FIL0, rect=True)
+R('presorted-joins', 2,
+  [lambda e, w: e.join(w.s[0], w.s[1], key='a', presorted=True),
+   lambda e, w: e.leftjoin(w.s[0], w.s[1], key='a', presorted=True),
+   lambda e, w: e.antijoin(w.s[0], w.s[1], key='a', presorted=True),
+   lambda e, w: e.lookupjoin(w.s[0], w.s[1], key='a', presorted=True),
+   lambda e, w: e.mergesort(w.s[0], w.s[1], key='a', presorted=True)],
+  'transform.joins', stream=FIL0)
+R('presorted-groups', 1,
+  [lambda e, w: e.duplicates(w.s[0], 'a', presorted=True),
+   lambda e, w: e.unique(w.s[0], 'a', presorted=True),
+   lambda e, w: e.distinct(w.s[0], 'a', presorted=True),
+   lambda e, w: e.conflicts(w.s[0], 'a', presorted=True),
+   lambda e, w: e.rowreduce(w.s[0], 'a', f_reducer, header=['k', 'n'],
+                            presorted=True),
+   lambda e, w: e.aggregate(w.s[0], 'a', _count, 'c', presorted=True),
+   lambda e, w: e.aggregate(w.s[0], 'a', {'n': len}, presorted=True),
+   lambda e, w: e.fold(w.s[0], 'a', f_fold, value='c', presorted=True),
+   lambda e, w: e.groupselectfirst(w.s[0], 'a', presorted=True),
+   lambda e, w: e.groupselectlast(w.s[0], 'a', presorted=True),
+   lambda e, w: e.mergeduplicates(w.s[0], 'a', presorted=True),
+   lambda e, w: e.rowgroupmap(w.s[0], 'a', f_groupmapper, header=['k', 'n'],
+                              presorted=True),
+   lambda e, w: e.pivot(w.s[0], 'a', 'b', 'c', _count, presorted=True)],
+  'transform.reductions', stream=FIL0)
+for _n in ('presorted-setops', 'presorted-joins', 'presorted-groups'):
+    RECIPES[_n].stackable = False
+    RECIPES[_n].c01 = False
+NAMES = sorted(RECIPES)
